@@ -181,16 +181,16 @@ theorem own_slots_ignored (c : Cls) (f : Flags) (s : Option (List Str)) :
 /-! ### the rewritten class dict -/
 
 theorem mem_preDict {c : Cls} {f : Flags} {x : Str} :
-    x ∈ popKey (popKey (popAll (addKey c.dictKeys kSlots) (fieldNames c f)) kDict) kWeakref ↔
-      (x ∈ c.dictKeys ∨ x = kSlots) ∧ x ∉ fieldNames c f ∧ x ≠ kDict ∧ x ≠ kWeakref := by
+    x ∈ popKey (popKey (popKey (popAll (addKey c.dictKeys kSlots) (fieldNames c f)) kDict) kWeakref) kSlotnames ↔
+      (x ∈ c.dictKeys ∨ x = kSlots) ∧ x ∉ fieldNames c f ∧ x ≠ kDict ∧ x ≠ kWeakref ∧ x ≠ kSlotnames := by
   simp only [mem_popKey, mem_popAll, mem_addKey]
   constructor
-  · rintro ⟨⟨⟨a, b⟩, c⟩, d⟩; exact ⟨a, b, c, d⟩
-  · rintro ⟨a, b, c, d⟩; exact ⟨⟨⟨a, b⟩, c⟩, d⟩
+  · rintro ⟨⟨⟨⟨a, b⟩, c⟩, d⟩, e⟩; exact ⟨a, b, c, d, e⟩
+  · rintro ⟨a, b, c, d, e⟩; exact ⟨⟨⟨⟨a, b⟩, c⟩, d⟩, e⟩
 
 theorem mem_newDict {c : Cls} {f : Flags} {x : Str} :
     x ∈ newDict c f ↔
-      ((x ∈ c.dictKeys ∨ x = kSlots) ∧ x ∉ fieldNames c f ∧ x ≠ kDict ∧ x ≠ kWeakref)
+      ((x ∈ c.dictKeys ∨ x = kSlots) ∧ x ∉ fieldNames c f ∧ x ≠ kDict ∧ x ≠ kWeakref ∧ x ≠ kSlotnames)
         ∨ (setstateFixed c f = true ∧ x = kSetstate) := by
   unfold newDict setstateFixed
   simp only []
@@ -224,13 +224,22 @@ theorem special_not_in_dict (c : Cls) (f : Flags) : kDict ∉ newDict c f ∧ kW
     · exact h.2.2.1 rfl
     · exact absurd h.2 (by decide)
   · rcases h with h | h
-    · exact h.2.2.2 rfl
+    · exact h.2.2.2.1 rfl
     · exact absurd h.2 (by decide)
+
+/-- The slot names `copyreg` cached for the ORIGINAL class (`__slotnames__`, written into the class dict by the first
+    copy / pickle of an instance) are never carried into the new class (the repair of 2185bc3: a stale `[]` made every
+    copy of a slotted instance fail). -/
+theorem slotnames_not_in_dict (c : Cls) (f : Flags) : kSlotnames ∉ newDict c f := by
+  intro h; rw [mem_newDict] at h
+  rcases h with h | h
+  · exact h.2.2.2.2 rfl
+  · exact absurd h.2 (by decide)
 
 /-- The new dict does carry the `__slots__` entry. -/
 theorem slots_key_in_dict (c : Cls) (f : Flags) (h : kSlots ∉ c.fields) : kSlots ∈ newDict c f := by
   rw [mem_newDict]
-  refine Or.inl ⟨Or.inr rfl, ?_, by decide, by decide⟩
+  refine Or.inl ⟨Or.inr rfl, ?_, by decide, by decide, by decide⟩
   rw [mem_fieldNames]
   rintro (h1 | h1 | h1)
   · exact h h1.1
@@ -239,9 +248,9 @@ theorem slots_key_in_dict (c : Cls) (f : Flags) (h : kSlots ∉ c.fields) : kSlo
 
 /-- Everything else of the class (methods, ClassVars, generated dunder methods, `__module__`, …) is kept. -/
 theorem other_attrs_kept (c : Cls) (f : Flags) (k : Str) (hk : k ∈ c.dictKeys)
-    (h1 : k ∉ c.fields) (h2 : k ≠ kDict) (h3 : k ≠ kWeakref) : k ∈ newDict c f := by
+    (h1 : k ∉ c.fields) (h2 : k ≠ kDict) (h3 : k ≠ kWeakref) (h4 : k ≠ kSlotnames) : k ∈ newDict c f := by
   rw [mem_newDict]
-  refine Or.inl ⟨Or.inl hk, ?_, h2, h3⟩
+  refine Or.inl ⟨Or.inl hk, ?_, h2, h3, h4⟩
   rw [mem_fieldNames]
   rintro (h | h | h)
   · exact h1 h.1
@@ -263,7 +272,7 @@ theorem setstate_fix_respects_inherited (c : Cls) (f : Flags) (h : setstateFixed
 /-- A user-defined `__setstate__` of the class itself is kept (not replaced, not dropped). -/
 theorem own_setstate_kept (c : Cls) (f : Flags) (h : kSetstate ∈ c.dictKeys) (hf : kSetstate ∉ c.fields) :
     kSetstate ∈ newDict c f ∧ setstateFixed c f = false := by
-  refine ⟨other_attrs_kept c f kSetstate h hf (by decide) (by decide), ?_⟩
+  refine ⟨other_attrs_kept c f kSetstate h hf (by decide) (by decide) (by decide), ?_⟩
   cases hs : setstateFixed c f with
   | false => rfl
   | true => exact absurd h ((setstate_fix_iff c f).mp hs).2.2.1
